@@ -3,11 +3,12 @@
 import json, os
 ROOT = os.path.dirname(os.path.dirname(os.path.abspath(__file__)))
 BINS = {"C01": ["vsim"], "C02": ["vsim"], "C05": ["vsim"], "C16": ["vsim"], "C17": ["vsim"], "C06": ["vhist"],
-        "C07": ["vstreams"], "C13": ["vrng"], "C18": ["valgo"], "C10": ["vcsg"], "C12": ["vsurf"], "C03": ["vnav"],
+        "C07": ["vstreams"], "C13": ["vrng"], "C18": ["valgo"], "C10": ["vcsg"], "C12": ["vsurf", "vinvolute"], "C03": ["vnav"],
         "C11": ["vnav"], "C08": ["vfield"], "C14": ["vgrid"], "C04": ["vinteract"], "C15": ["vsample"],
         "C09": ["vbuild"], "C19": ["vbuild"], "C20": ["voptical"]}
 # extension checks (specs beyond the listed properties; bin/check X0n, evidence/extras/)
-EXTRA_BINS = {"X01": ["vtracksort"], "X02": ["vlooping"], "X03": ["vbih"], "X04": ["vactionseq"], "X05": ["vsurfdedupe"]}
+EXTRA_BINS = {"X01": ["vtracksort"], "X02": ["vlooping"], "X03": ["vbih"], "X04": ["vactionseq"], "X05": ["vsurfdedupe"],
+              "X06": ["vboundzone"], "X07": ["vphysselect"]}
 man = json.load(open(os.path.join(ROOT, "MANIFEST.json")))
 need = sorted({b for c in man["checks"] for b in BINS.get(c["property_id"], [])})
 import sys
